@@ -228,8 +228,8 @@ fn oracle_run(prog: &[St]) -> String
 			St::Align(n) =>
 			{
 				let Some(c) = cursor else {status = format!("E{t} inactive"); break;};
-				// the implementation computes the alignment on the cursor saturated at 0xFFFFFFFF
-				let off = c.min(0xFFFF_FFFF) % *n as u64;
+				// the alignment is computed on the true (64-bit) cursor: a region filled through 0xFFFFFFFF ends at 2^32
+				let off = c % *n as u64;
 				if off == 0 {continue;}
 				((*n as u64 - off) as usize, Some(vec![0xBE; (*n as u64 - off) as usize]))
 			},
